@@ -14,6 +14,7 @@ def run(ctx):
     ctx.props("C01")
     n_seq = 150 if ctx.tier == "quick" else 6000
     cases = cc.gen_sequences(ctx, impl, n_seq, 40)
+    cases += cc.published_boundary_cases(impl)
     dcases = cc.gen_dcases(ctx, impl, 100 if ctx.tier == "quick" else 3000)
     hists = cc.gen_histories(ctx, impl, 40 if ctx.tier == "quick" else 1500)
     cases += cc.run_histories(ctx, impl, hists)
